@@ -482,7 +482,20 @@ def gen_c10(repo):
         if ast.unparse(node) == 'self.queue.qsize()':
             return '(%s).length' % env['@self']['queue']
         return None
-    t = TrM(fields, ext_expr=ext_expr, kinds=kinds, state_type='QS α')
+    DRAIN = 'batches = [self.queue.get_nowait() for _ in range(q_size)]'
+    FLAT = '[e for batch in batches for e in (batch.toLocalIterator() if isinstance(batch, RDD) else batch)]'
+
+    class TQ(TrM):
+        def block(self, stmts, env, k, ind):
+            if stmts and ast.unparse(stmts[0]) == DRAIN and 'q_size' in env:
+                # `q_size` calls of get_nowait(): queue.Empty if fewer are queued; a queued dataset is modelled by its elements
+                q, n, pad = env['@self']['queue'], env['q_size'], ' ' * ind
+                env2 = dict(env)
+                env2['@self'] = dict(env['@self'], queue='((%s).drop %s)' % (q, n))
+                env2['batches'] = '((%s).take %s)' % (q, n)
+                return ('if (%s).length < %s then none   -- queue.Empty\n%selse\n%s  ' % (q, n, pad, pad)) + self.block(stmts[1:], env2, k, ind + 2)
+            return super().block(stmts, env, k, ind)
+    t = TQ(fields, ext_expr=ext_expr, kinds=kinds, state_type='QS α')
     env = t.start_env([])
     env['@kind']['q_size'] = 'nat'
 
@@ -499,10 +512,8 @@ def gen_c10(repo):
                 return 'some (%s, %s)' % (e2['@self']['default'], t.record(e2))
             if src == 'self.queue.get_nowait()':
                 return 'match %s with | [] => none /- queue.Empty -/ | b :: rest => some (some b, %s)' % (q, st('rest'))
-            if src == '[e for _ in range(q_size) for e in self.queue.get_nowait()]' and 'q_size' in e2:
-                n = e2['q_size']
-                return ('if (%s).length < %s then none /- queue.Empty -/ else some (some ((%s).take %s).flatten, %s)' %
-                        (q, n, q, n, st('((%s).drop %s)' % (q, n))))
+            if src == FLAT and 'batches' in e2:
+                return 'some (some (%s).flatten, %s)' % (e2['batches'], t.record(e2))
         raise NotTranslatable('%s %s in QueueStream.get' % (kind, ast.unparse(value) if value is not None else ''))
     out = ('structure QS (α : Type) where\n  queue : List (List α)      -- the `queue.Queue` of batches, oldest first\n  oneAtATime : Bool\n'
            '  default : Option (List α)\n\n'
